@@ -67,13 +67,16 @@ def replaceWithCapturesInContext (capsAt : Nat → Option Caps) (names : List (B
   { st with dst := st.dst ++ slice bytes st.lastMatch end_ }
 
 /-- `Replacer::replace_all(searcher, matcher, haystack, range, replacement)` when not multi-line:
-the haystack is cut at the end of `range` minus its line terminator. `capsAt` is the matcher run on that
-cut haystack. Returns `dst` and the expansion offsets. -/
+the haystack is cut at the end of `range` minus its line terminator, the replacement is done on the cut
+haystack, and the terminator bytes that were cut off are put back after it (`dst.extend(line_term)`).
+`capsAt` is the matcher run on the cut haystack. Returns `dst` and the expansion offsets. -/
 def replaceAllLine (t : LineTerm) (capsAtOf : Bytes → Nat → Option Caps) (names : List (Bytes × Nat))
     (haystack : Bytes) (rs re : Nat) (tmpl : Bytes) : RState :=
   let e := trimLineTerminator t haystack 0 re
+  let lineTerm := slice haystack e re
   let hay := haystack.take e
-  replaceWithCapturesInContext (capsAtOf hay) names hay rs re (isAtUnterminatedEnd t hay rs re) tmpl
+  let st := replaceWithCapturesInContext (capsAtOf hay) names hay rs re (isAtUnterminatedEnd t hay rs re) tmpl
+  { st with dst := st.dst ++ lineTerm }
 
 def LineTerm.bytes : LineTerm → Bytes
   | .byte b => [b]
